@@ -2876,8 +2876,9 @@ def digest_dsl_component(
             exc = experiment.model.errors.DSLInvalidFieldError(
                 location=scope.dsl_location() + ["command", "environment"], underlying_error=exc)
             errors.append(exc)
-
-        check_environment = scope.parameters[param_name]
+            check_environment = None
+        else:
+            check_environment = scope.parameters[param_name]
 
     if isinstance(check_environment, dict):
         environment = check_environment
